@@ -197,6 +197,7 @@ def check(prop, tier, seed, replay=None):
                         "byte identity is established by sha256 of whole files"]
     root = os.path.join(common.scratch(), "paths")
     if replay:
+        run.is_replay = True
         rp = json.load(open(replay))["replay"]
         tr = run_tour(rp["labels"], root, rp["seed"])
         res, verdict = validate([tr])
